@@ -332,10 +332,12 @@ def cfgs_for(action, args, L, R):
     return ('v20', 'v31', 'c20', 'c10')
 
 
-def styles_for(cfg: str):
+def styles_for(cfg: str, single: bool):
+    """constructor-call spelling everywhere; the literal spelling (1, 1.5, 1.5e0, "abc", true()) reaches the same
+    values through the literal tokens: replayed on single pairs / single operands with the 2.0 parser"""
     if cfg == 'c10':
         return ('x10',)
-    return ('ctor', 'lit') if cfg in ('v20', 'c20') else ('ctor',)
+    return ('ctor', 'lit') if single and cfg in ('v20', 'c20') else ('ctor',)
 
 
 def worker(job):
@@ -350,7 +352,7 @@ def worker(job):
             if 'UNSPEC' in allowed:
                 n_unspec += 1
                 continue
-            for style in styles_for(cfg):
+            for style in styles_for(cfg, len(L) <= 1 and len(R) <= 1):
                 text = expr_for(action, args, L, R, style)
                 if text is None:
                     continue
@@ -449,4 +451,4 @@ def run(chk: core.Check) -> None:
     chk.coverage['rule'] = ('every Cmp(kind, op) edge of Compare (all ordered pairs of the 60-item universe (58 atomic values, 2 nodes) and the empty sequence, all operand sequences up to '
                             'MaxLen over the sequence pool; x 6 operators x value/general) and every Fn/Bin edge of Logic is one case per '
                             'configuration (v20 v31 c20 c10 always; v30 c31 on single pairs) and spelling (constructor calls; literals on '
-                            'v20/c20; XPath 1.0 text on c10); a failing sequence case is traced to its first failing operand pair')
+                            'v20/c20 for single pairs; XPath 1.0 text on c10); a failing sequence case is traced to its first failing operand pair')
